@@ -15,6 +15,9 @@
 //!      benign variations (6 attribute orders, 0-3 extra signed attributes
 //!      crossing 128 and 256 octets, EE / CRL spellings, boundary instants)
 //!      must validate; every single violation and all pairs must not;
+//!      the full product of composable EE-certificate and CRL options (benign
+//!      spellings and violations alike) x 9 evaluation instants around a narrow
+//!      and a wide window, and attribute settings x those options;
 //!  (c) every single-bit flip of one library-created and two foreign messages.
 //!
 //! Reference model: the condition vector itself (valid <=> all true).
@@ -349,7 +352,10 @@ fn plan_attrs(fx: &Fx, p: &Plan) -> (Vec<Vec<u8>>, Vec<Vec<u8>>) {
     (all, mandatory)
 }
 
-fn assemble(fx: &Fx, p: &Plan, ee: &[u8], crl: &[u8]) -> Vec<u8> {
+/// The signed attributes of a plan and the signature over them (independent of certificate and CRL).
+struct Presigned { attrs: Vec<Vec<u8>>, signature: Vec<u8> }
+
+fn presign(fx: &Fx, p: &Plan) -> Presigned {
     let (attrs, mandatory) = plan_attrs(fx, p);
     let tbs = match p.sig {
         SigV::OverImplicitTag => der::tlv(0xA0, &der::cat(&attrs)),
@@ -358,7 +364,11 @@ fn assemble(fx: &Fx, p: &Plan, ee: &[u8], crl: &[u8]) -> Vec<u8> {
     };
     let mut signature = fx.s.sign_raw(if p.sig == SigV::OtherKey { K_EE2 } else { K_EE }, &tbs);
     if p.sig == SigV::FlipLastBit { let n = signature.len(); signature[n - 1] ^= 1 }
-    let sid = if p.prof == ProfV::SidOther || p.prof == ProfV::SkiExtOther { fx.s.key(K_EE2).ski.to_vec() } else { fx.s.key(K_EE).ski.to_vec() };
+    Presigned { attrs, signature }
+}
+
+fn wrap(fx: &Fx, p: &Plan, ps: &Presigned, sid_other: bool, ee: &[u8], crl: &[u8]) -> Vec<u8> {
+    let sid = if sid_other || p.prof == ProfV::SidOther || p.prof == ProfV::SkiExtOther { fx.s.key(K_EE2).ski.to_vec() } else { fx.s.key(K_EE).ski.to_vec() };
     der::signed_data(&SignedDataParts {
         version: 3,
         digest_alg_set: der::set_unsorted(&[der::alg_sha256(false)]),
@@ -369,11 +379,95 @@ fn assemble(fx: &Fx, p: &Plan, ee: &[u8], crl: &[u8]) -> Vec<u8> {
         si_version: 3,
         sid,
         si_digest_alg: der::alg_sha256(false),
-        signed_attrs: attrs,
+        signed_attrs: ps.attrs.clone(),
         sig_alg: der::alg_rsa_encryption(),
-        signature,
+        signature: ps.signature.clone(),
     })
 }
+
+fn assemble(fx: &Fx, p: &Plan, ee: &[u8], crl: &[u8]) -> Vec<u8> { wrap(fx, p, &presign(fx, p), false, ee, crl) }
+
+//------------ composable certificate / CRL options (product space) --------------------------------
+
+const NARROW: i64 = 300;
+const WIDE: i64 = 1000;
+
+/// aki: 0 = issuer's key identifier, 1 = extension absent, 2 = another key's identifier.
+/// basic: 0 = extension absent, 1 = present without cA, 2 = cA TRUE.
+#[derive(Clone, Copy, Debug, PartialEq, Eq, PartialOrd, Ord)]
+struct EeO { aki: u8, basic: u8, key_usage: bool, big_serial: bool, other_key: bool, wide: bool, ski_other: bool }
+
+/// revoked: 0 empty list, 1 field absent, 2 other serials, 3 other serials with entry extensions,
+/// 4 only the EE serial, 5 EE serial first, 6 in the middle, 7 last.
+#[derive(Clone, Copy, Debug, PartialEq, Eq, PartialOrd, Ord)]
+struct CrlO { aki: u8, number: bool, unknown_ext: bool, revoked: u8, other_key: bool, wide: bool }
+
+const EE_BASE: EeO = EeO { aki: 0, basic: 0, key_usage: false, big_serial: false, other_key: false, wide: false, ski_other: false };
+const CRL_BASE: CrlO = CrlO { aki: 0, number: true, unknown_ext: false, revoked: 0, other_key: false, wide: false };
+
+fn ee_full() -> Vec<EeO> {
+    let mut v = Vec::new();
+    for aki in 0..3 { for basic in 0..3 { for key_usage in [false, true] { for big_serial in [false, true] { for other_key in [false, true] { for wide in [false, true] { for ski_other in [false, true] {
+        v.push(EeO { aki, basic, key_usage, big_serial, other_key, wide, ski_other })
+    }}}}}}}
+    v
+}
+fn ee_reduced() -> Vec<EeO> {
+    let b = EE_BASE;
+    vec![b, EeO { aki: 1, ..b }, EeO { aki: 2, ..b }, EeO { basic: 1, ..b }, EeO { basic: 2, ..b }, EeO { key_usage: true, ..b }, EeO { big_serial: true, ..b },
+         EeO { other_key: true, ..b }, EeO { wide: true, ..b }, EeO { ski_other: true, ..b }]
+}
+fn crl_full() -> Vec<CrlO> {
+    let mut v = Vec::new();
+    for aki in 0..3 { for number in [true, false] { for unknown_ext in [false, true] { for revoked in 0..8 { for other_key in [false, true] { for wide in [false, true] {
+        v.push(CrlO { aki, number, unknown_ext, revoked, other_key, wide })
+    }}}}}}
+    v
+}
+fn crl_reduced() -> Vec<CrlO> {
+    let b = CRL_BASE;
+    let mut v = vec![b, CrlO { aki: 1, ..b }, CrlO { aki: 2, ..b }, CrlO { number: false, ..b }, CrlO { unknown_ext: true, ..b }, CrlO { other_key: true, ..b }, CrlO { wide: true, ..b }];
+    for r in 1..8 { v.push(CrlO { revoked: r, ..b }) }
+    v
+}
+
+fn aki_value(s: &PoolSigner, n: u8) -> Option<Vec<u8>> {
+    match n { 0 => Some(s.key(K_PEER).ski.to_vec()), 1 => None, _ => Some(s.key(K_OTHER).ski.to_vec()) }
+}
+
+fn big_or_small_serial(big: bool) -> Vec<u8> { ee_serial(if big { EeV::BigSerial } else { EeV::Plain }) }
+
+fn ee_from(s: &PoolSigner, o: &EeO) -> Vec<u8> {
+    let w = if o.wide { WIDE } else { NARROW };
+    ee_cert(s, &EeSpec { serial: big_or_small_serial(o.big_serial), nb: T0 - w, na: T0 + w, subject_key: K_EE, sign_key: if o.other_key { K_OTHER } else { K_PEER },
+        ski: if o.ski_other { Some(s.key(K_EE2).ski.to_vec()) } else { None }, aki: aki_value(s, o.aki),
+        basic: match o.basic { 0 => Basic::Absent, 1 => Basic::EmptySeq, _ => Basic::CaTrue }, key_usage_ext: o.key_usage })
+}
+
+fn other_serials() -> Vec<Vec<u8>> {
+    vec![vec![0x12, 0x34, 0x55], vec![0x12, 0x34, 0x57], vec![0x12, 0x34], vec![0x12, 0x34, 0x56, 0x00], vec![0x34, 0x56], vec![0x01],
+         { let mut b = vec![0x7f]; b.extend([0xffu8; 18]); b.push(0xfe); b }]
+}
+
+fn crl_from(s: &PoolSigner, o: &CrlO, big_serial: bool) -> Vec<u8> {
+    let w = if o.wide { WIDE } else { NARROW };
+    let ee = big_or_small_serial(big_serial);
+    let others = other_serials();
+    let revoked: Option<Vec<(Vec<u8>, bool)>> = match o.revoked {
+        0 => Some(vec![]),
+        1 => None,
+        2 => Some(others.iter().map(|x| (x.clone(), false)).collect()),
+        3 => Some(others.iter().map(|x| (x.clone(), true)).collect()),
+        4 => Some(vec![(ee, false)]),
+        5 => { let mut l = vec![(ee, true)]; l.extend(others.iter().map(|x| (x.clone(), false))); Some(l) }
+        6 => { let mut l: Vec<_> = others.iter().map(|x| (x.clone(), false)).collect(); l.insert(3, (ee, false)); Some(l) }
+        _ => { let mut l: Vec<_> = others.iter().map(|x| (x.clone(), true)).collect(); l.push((ee, false)); Some(l) }
+    };
+    crl(s, &CrlSpec { this: T0 - w, next: T0 + w, sign_key: if o.other_key { K_OTHER } else { K_PEER }, revoked, aki: aki_value(s, o.aki),
+        number: if o.number { Some(42) } else { None }, unknown_ext: o.unknown_ext, ext_block: true })
+}
+
+fn within(wide: bool, off: i64) -> bool { let w = if wide { WIDE } else { NARROW }; -w <= off && off <= w }
 
 /// Certificates and CRLs are pure functions of a few plan fields: build each once.
 struct Cache { ee: Mutex<BTreeMap<(EeV, ProfV), Vec<u8>>>, crl: Mutex<BTreeMap<(CrlV, ProfV, bool), Vec<u8>>> }
@@ -752,6 +846,91 @@ fn main() {
         let mut p = Plan::base(); p.crl = CrlV::ListsEeMiddle; p.sig = SigV::OverMandatoryOnly; p.extras = vec![Extra::Bst, Extra::Unk100];
         sp.sample_str(|| p.witness(Via::Relaxed));
         sp.done(true, &format!("{} single variants x 6 orders x 3 extras settings + {} pairs x {} orders x 3 + 6 same-field pairs, x 3 decoders", viols.len(), npairs, pair_orders.len()));
+    }
+
+    //--- (b3) foreign: product of composable spellings and violations ----------------------------------------------
+    {
+        let sp = ctx.space("foreign.product",
+            "EE certificate options {AKI right/absent/wrong, basicConstraints absent/empty/cA, critical keyUsage, 20-octet serial, signed by peer/other key, window T0+-300 / T0+-1000 s, SKI extension right/other} (288) and CRL options {AKI right/absent/wrong, CRL number, unknown extensions, 8 revoked-list shapes (4 without, 4 with the EE serial), signed by peer/other key, window T0+-300 / T0+-1000 s} (384), benign spellings and violations alike: quick = (all EE x CRL base-and-single-deviations) + (EE base-and-single-deviations x all CRL), thorough = all EE x all CRL; each message evaluated at T0 + {-1001,-1000,-301,-300,0,300,301,1000,1001} s (inside one window and outside the other included), strict and relaxed. Second part: 6 orders x 3 extras settings x 2 time forms x {no, each digest, each signature, sid, content-type violation} x EE and CRL base-and-single-deviations at T0. Model: validates <=> every condition holds (signature, digest; EE signed by peer, not a CA, window contains t; CRL signed by peer, window contains t, EE serial not listed; profile: key identifiers, sid, content type); non-trivial = cases where at least one condition is violated");
+        let offsets: [i64; 9] = [-1001, -1000, -301, -300, 0, 300, 301, 1000, 1001];
+        let (ee_all, crl_all, ee_red, crl_red) = (ee_full(), crl_full(), ee_reduced(), crl_reduced());
+        let ee_certs: BTreeMap<EeO, Vec<u8>> = ee_all.par_iter().map(|o| (*o, ee_from(s, o))).collect();
+        let crl_keys: Vec<(CrlO, bool)> = crl_all.iter().flat_map(|o| [(*o, false), (*o, true)]).collect();
+        let crls: BTreeMap<(CrlO, bool), Vec<u8>> = crl_keys.par_iter().map(|k| (*k, crl_from(s, &k.0, k.1))).collect();
+        let mut pairs: BTreeSet<(EeO, CrlO)> = BTreeSet::new();
+        if thorough { for e in &ee_all { for c in &crl_all { pairs.insert((*e, *c)); } } }
+        else {
+            for e in &ee_all { for c in &crl_red { pairs.insert((*e, *c)); } }
+            for e in &ee_red { for c in &crl_all { pairs.insert((*e, *c)); } }
+        }
+        let pairs: Vec<(EeO, CrlO)> = pairs.into_iter().collect();
+        let base = Plan::base();
+        let base_signed = presign(&fx, &base);
+        let oc: Mutex<BTreeMap<&'static str, u64>> = Mutex::new(BTreeMap::new());
+        let nt = Mutex::new(0u64);
+        let judge = |e: &EeO, c: &CrlO, off: i64, attrs_stated: bool, attrs_prof: bool| -> (bool, bool) {
+            let stated = attrs_stated && !e.other_key && e.basic != 2 && within(e.wide, off) && !c.other_key && within(c.wide, off) && c.revoked < 4;
+            let prof = attrs_prof && e.aki != 2 && c.aki != 2 && !e.ski_other;
+            (stated, prof)
+        };
+        pairs.par_iter().for_each(|(e, c)| {
+            let bytes = wrap(&fx, &base, &base_signed, e.ski_other, &ee_certs[e], &crls[&(*c, e.big_serial)]);
+            let mut local: BTreeMap<&'static str, u64> = BTreeMap::new();
+            let mut n = 0u64;
+            for off in offsets { for via in [Via::Strict, Via::Relaxed] {
+                let v = run(&bytes, &fx.peer, T0 + off, via);
+                *local.entry(v.class()).or_insert(0) += 1;
+                let (stated, prof) = judge(e, c, off, true, true);
+                if !(stated && prof) { n += 1 }
+                let or = if stated { "C10.foreign.profile.reject" } else { "C10.foreign.product.reject" };
+                expect(&ctx, "C10.foreign.accept", or, stated && prof, &v, || format!("foreign order=ct,md,st extras=[] {e:?} {c:?} via={via:?} when=T0{off:+}s (narrow window = T0+-300 s, wide = T0+-1000 s)"));
+            }}
+            sp.evals(18);
+            *nt.lock().unwrap() += n;
+            let mut g = oc.lock().unwrap(); for (k, v) in local { *g.entry(k).or_insert(0) += v }
+        });
+        // second part: attribute settings x reduced certificate / CRL menus at T0
+        let mut aplans: Vec<Plan> = Vec::new();
+        let ex_menu: Vec<Vec<Extra>> = vec![vec![], vec![Extra::Bst, Extra::Unk100], vec![Extra::Bst, Extra::Unk100, Extra::Unk200]];
+        let mut aviols: Vec<Option<Viol>> = vec![None];
+        aviols.extend([DigestV::FlipFirst, DigestV::FlipLast, DigestV::Short31, DigestV::OfOtherContent].map(|x| Some(Viol::D(x))));
+        aviols.extend([SigV::OtherKey, SigV::OverImplicitTag, SigV::OverMandatoryOnly, SigV::FlipLastBit].map(|x| Some(Viol::S(x))));
+        aviols.extend([ProfV::SidOther, ProfV::CtAttrOther, ProfV::CtBothOther].map(|x| Some(Viol::P(x))));
+        for o in &perms { for ex in &ex_menu { for st_gen in [false, true] { for av in &aviols {
+            if matches!(av, Some(Viol::S(SigV::OverMandatoryOnly))) && ex.is_empty() { continue }
+            let mut p = Plan::base(); p.order = *o; p.extras = ex.clone(); p.st_gen = st_gen;
+            if let Some(v) = av { v.apply(&mut p) }
+            aplans.push(p);
+        }}}}
+        let asigned: Vec<Presigned> = aplans.par_iter().map(|p| presign(&fx, p)).collect();
+        (0..aplans.len()).into_par_iter().for_each(|ai| {
+            let p = &aplans[ai];
+            let mut local: BTreeMap<&'static str, u64> = BTreeMap::new();
+            let mut n = 0u64;
+            for e in &ee_red { for c in &crl_red {
+                let bytes = wrap(&fx, p, &asigned[ai], e.ski_other, &ee_certs[e], &crls[&(*c, e.big_serial)]);
+                for via in [Via::Strict, Via::Relaxed] {
+                    let v = run(&bytes, &fx.peer, T0, via);
+                    *local.entry(v.class()).or_insert(0) += 1;
+                    let (stated, prof) = judge(e, c, 0, p.digest == DigestV::Ok && p.sig == SigV::Ok, p.prof == ProfV::Ok);
+                    if !(stated && prof) { n += 1 }
+                    let or = if stated { "C10.foreign.profile.reject" } else { "C10.foreign.product.reject" };
+                    expect(&ctx, "C10.foreign.accept", or, stated && prof, &v, || format!("foreign order={} extras={:?} st={} attrs-violated=[{}] {e:?} {c:?} via={via:?} when=T0",
+                        p.order.iter().map(|&i| ATTR_NAMES[i]).collect::<Vec<_>>().join(","), p.extras, if p.st_gen { "generalized" } else { "utc" }, p.violated().join(" ")));
+                }
+            }}
+            sp.evals((ee_red.len() * crl_red.len() * 2) as u64);
+            *nt.lock().unwrap() += n;
+            let mut g = oc.lock().unwrap(); for (k, v) in local { *g.entry(k).or_insert(0) += v }
+        });
+        sp.merge_outcomes(&oc.lock().unwrap());
+        sp.nontrivial(*nt.lock().unwrap());
+        sp.set("ee_option_sets", serde_json::json!(ee_all.len()));
+        sp.set("crl_option_sets", serde_json::json!(crl_all.len()));
+        sp.set("certificate_crl_pairs", serde_json::json!(pairs.len()));
+        sp.set("attribute_settings", serde_json::json!(aplans.len()));
+        sp.sample_str(|| format!("foreign order=ct,md,st extras=[] {:?} {:?} via=Strict when=T0+301s -> rejected (CRL stale, EE certificate still valid)", EeO { wide: true, ..EE_BASE }, CrlO { aki: 1, ..CRL_BASE }));
+        sp.done(true, &format!("{} (EE, CRL) option pairs x 9 instants x 2 decoders; {} attribute settings x {} x {} reduced menus x 2 decoders", pairs.len(), aplans.len(), ee_red.len(), crl_red.len()));
     }
 
     //--- (c) every single-bit flip -------------------------------------------------------------------------------
